@@ -26,6 +26,7 @@ func C06(c *Ctx) {
 	r.Rule("R06.5", "expiry applies the list of the current height only: setTimeoutRollback and getTimeoutIBTPsMap iterate getTimeoutList(height) with their own height parameter; the timeout functions read no executor field other than ledger/config/logger (nothing in memory across restarts).")
 	r.Rule("R06.11", "one decision about the timeout: when the interchain contract overrides the timeout it hands to the transaction manager (beginTransaction zeroes it on the hub that does not own the timeout of a transaction between two BitXHubs, the record then carries Height = MaxUint64), the registration of the request in setTimeoutList lies behind the edge record.Height != MaxUint64 of the stored record; otherwise the executor lists what the contract decided not to time out, the receipt cannot find the id, and the finished transaction is rolled back at that height.")
 	r.Rule("R06.12", "the destination hub owns the timeout: the comparison in beginTransaction that takes the timeout away compares the current hub with the hub of ibtp.From (ParseFrom), never with the hub of ibtp.To - the destination hub is where the request executes and must be the one that lists it and rolls it back at the timeout height.")
+	r.Rule("R06.13", "T = 0 never times out: where the transaction manager computes a deadline GetCurrentHeight() + timeout and stores it as the Height of a record under which an id is listed (the group record handed to addToTimeoutList; the transaction record, when the executor lists requests under the recorded height), the function tests the timeout against 0 and on the edge on which it is 0 the recorded Height is MaxUint64 (never the sum: H + 0 = H would list the request for the block that accepted it, and it would be rolled back at once).")
 	r.NotDecided = append(r.NotDecided, "'exactly once in that block's notifications' over restarts beyond 'state is ledger-borne'; numeric adequacy of the overflow guard")
 
 	pe := c.fn("R06.1", execPrefix+"processExecuteEvent")
@@ -70,6 +71,7 @@ func C06(c *Ctx) {
 		remUpd = append(remUpd, s.at)
 	}
 	r.Floor("R06.1", "registration updates in setTimeoutList", nAddInner, 2)
+	recordedMode := false
 	for _, us := range addSites {
 		in := us.at
 		ok := false
@@ -80,6 +82,14 @@ func C06(c *Ctx) {
 					ok = true
 				}
 			}
+		}
+		if !ok && core.Mentions(us.k, fieldLoad("TransactionRecord", "Height")) {
+			// the other sound scheme: list the id under the height the transaction manager recorded for it
+			// (that is where the receipt looks for it); whether and when it times out is then the contract's
+			// decision alone, see R06.11 (mandatory in this scheme) and R06.13.
+			recordedMode = true
+			r.OK("R06.1", "setTimeoutList: registration height", c.P.Pos(in.Pos()), "key = Height of the transaction record stored for the id (the height the receipt removes it from)")
+			continue
 		}
 		r.Check(ok, "R06.1", "setTimeoutList: registration height", c.P.Pos(in.Pos()), "key = height + uint64(ibtp.TimeoutHeight)", "the request is not registered at height + TimeoutHeight of the block that accepted it")
 	}
@@ -185,6 +195,9 @@ func C06(c *Ctx) {
 				"the timeout of a transaction between two BitXHubs is taken away on the hub of ibtp.To: the destination hub, where the destination appchain executes the request, never times it out (the request stays BEGIN for ever) and the source hub rolls back on its own")
 		}
 		r.Floor("R06.12", "hub comparisons deciding the timeout owner", nOwn, 1)
+	}
+	if override == "" && recordedMode {
+		override = "registration under the recorded height"
 	}
 	if override == "" {
 		r.OK("R06.11", "beginTransaction hands the IBTP's own timeout to the transaction manager", "", "no override of the timeout on the contract side: the executor's computation from ibtp.TimeoutHeight agrees by construction")
@@ -297,7 +310,15 @@ func C06(c *Ctx) {
 			return false, 0
 		})
 	}
-	guard("TimeoutHeight > 0", func(f core.Fact, ifi *ssa.If) (bool, int) {
+	if recordedMode {
+		r.OK("R06.2", "setTimeoutList: timeout registration behind TimeoutHeight > 0", c.P.Pos(stl.Pos()), "the request is listed under the recorded height; T = 0 and overflowing T are decided where the record is written (R06.13) and honoured through record.Height != MaxUint64 (R06.11)")
+	}
+	guardUnlessRecorded := func(name string, pick func(f core.Fact, ifi *ssa.If) (bool, int)) {
+		if !recordedMode {
+			guard(name, pick)
+		}
+	}
+	guardUnlessRecorded("TimeoutHeight > 0", func(f core.Fact, ifi *ssa.If) (bool, int) {
 		// `ibtp.TimeoutHeight <= 0` false edge
 		if ifi == nil {
 			return false, 0
@@ -317,7 +338,7 @@ func C06(c *Ctx) {
 		}
 		return false, 0
 	})
-	guard("TimeoutHeight below the overflow bound", func(f core.Fact, ifi *ssa.If) (bool, int) {
+	guardUnlessRecorded("TimeoutHeight below the overflow bound", func(f core.Fact, ifi *ssa.If) (bool, int) {
 		bo, ok := ifi.Cond.(*ssa.BinOp)
 		if !ok || !core.Mentions(bo.X, fieldLoad("IBTP", "TimeoutHeight")) {
 			return false, 0
@@ -333,6 +354,8 @@ func C06(c *Ctx) {
 		}
 		return false, 0
 	})
+
+	c.zeroTimeoutDeadline(recordedMode)
 
 	c.timeoutListInvariant("R06.3", "R06.6", "R06.7")
 	c.timeoutListIdentity()
@@ -768,7 +791,83 @@ func (c *Ctx) timeoutListIdentity() {
 // timeoutUpdSites: the per-block accumulator updates of setTimeoutList: registration (key derived from
 // ibtp.TimeoutHeight) and removal (key = the stored record's Height), direct or through a helper.
 func (c *Ctx) timeoutUpdSites(stl *ssa.Function) (add, rem []updSite) {
+	// The two per-block accumulators are told apart by what consumes them: the map whose entries are handed
+	// to a helper that takes ids out of a stored list (reaches removeFromStr) is the removal accumulator, the
+	// map whose entries are handed to a helper that does not is the registration accumulator. Only when no
+	// consumer is found (the write-back was restructured beyond recognition) the shape of the key decides.
+	remFn := c.P.Fn(execPrefix + "removeFromStr")
+	reachesRemove := func(g *ssa.Function) bool {
+		if g == nil || remFn == nil {
+			return false
+		}
+		seen := map[*ssa.Function]bool{}
+		var walk func(f *ssa.Function, d int) bool
+		walk = func(f *ssa.Function, d int) bool {
+			if f == remFn {
+				return true
+			}
+			if seen[f] || d > 3 || !c.P.InModule(f) {
+				return false
+			}
+			seen[f] = true
+			for _, call := range core.Calls(f) {
+				if h := core.StaticCallee(call); h != nil && walk(h, d+1) {
+					return true
+				}
+			}
+			return false
+		}
+		return walk(g, 0)
+	}
+	kind := map[ssa.Value]int{} // stripped map value -> 1 registration, 2 removal
+	for _, b := range stl.Blocks {
+		for _, in := range b.Instrs {
+			rg, ok := in.(*ssa.Range)
+			if !ok {
+				continue
+			}
+			m := core.Strip(rg.X)
+			fromRange := func(v ssa.Value) bool {
+				return core.Mentions(v, func(w ssa.Value) bool {
+					ex, ok := w.(*ssa.Extract)
+					if !ok {
+						return false
+					}
+					nx, ok := ex.Tuple.(*ssa.Next)
+					return ok && nx.Iter == ssa.Value(rg)
+				})
+			}
+			for _, call := range core.Calls(stl) {
+				g := core.StaticCallee(call)
+				if g == nil || !c.P.InModule(g) {
+					continue
+				}
+				uses := false
+				for _, a := range call.Common().Args {
+					if fromRange(a) {
+						uses = true
+					}
+				}
+				if !uses {
+					continue
+				}
+				if reachesRemove(g) {
+					kind[m] = 2
+				} else if kind[m] == 0 {
+					kind[m] = 1
+				}
+			}
+		}
+	}
 	for _, us := range c.mapUpdateSites(stl) {
+		switch kind[core.Strip(us.m)] {
+		case 1:
+			add = append(add, us)
+			continue
+		case 2:
+			rem = append(rem, us)
+			continue
+		}
 		if core.Mentions(us.k, fieldLoad("IBTP", "TimeoutHeight")) {
 			add = append(add, us)
 		} else if core.Mentions(us.k, fieldLoad("TransactionRecord", "Height")) {
@@ -784,6 +883,7 @@ func sameExpr(a, b ssa.Value, d int) bool {
 	if sameValue(a, b) {
 		return true
 	}
+	a, b = core.Strip(a), core.Strip(b)
 	if d > 4 {
 		return false
 	}
@@ -794,6 +894,28 @@ func sameExpr(a, b ssa.Value, d int) bool {
 	case *ssa.ChangeType:
 		y, ok := b.(*ssa.ChangeType)
 		return ok && sameExpr(x.X, y.X, d+1)
+	case *ssa.Call:
+		// the same static function applied to equal arguments (strings.ToLower(v), v.String(), ...)
+		y, ok := b.(*ssa.Call)
+		if !ok || x.Call.IsInvoke() != y.Call.IsInvoke() || len(x.Call.Args) != len(y.Call.Args) {
+			return false
+		}
+		if x.Call.IsInvoke() {
+			if x.Call.Method != y.Call.Method || !sameExpr(x.Call.Value, y.Call.Value, d+1) {
+				return false
+			}
+		} else {
+			fx, fy := core.StaticCallee(x), core.StaticCallee(y)
+			if fx == nil || fx != fy {
+				return false
+			}
+		}
+		for i := range x.Call.Args {
+			if !sameExpr(x.Call.Args[i], y.Call.Args[i], d+1) {
+				return false
+			}
+		}
+		return true
 	}
 	return false
 }
@@ -884,4 +1006,168 @@ func (c *Ctx) expiryReadBeforeOverwrite(rule string) {
 	}
 	n := c.mustPrecede(rule, "processExecuteEvent", pe, isCallTo(gtm), isCallTo(str), "getTimeoutIBTPsMap (reads the stored child statuses)", "setTimeoutRollback (overwrites them with BEGIN_ROLLBACK)")
 	c.R.Floor(rule, "status overwrites at expiry in processExecuteEvent", n, 1)
+}
+
+// zeroTimeoutDeadline (R06.13): in every method of the transaction manager that stores a deadline
+// (GetCurrentHeight() + timeout parameter) into the Height field of a record, the value recorded when the
+// timeout is 0 is MaxUint64. Mandatory where the function lists the id itself (addToTimeoutList) and, when the
+// executor lists requests under the recorded height (recordedMode), for every such function.
+func (c *Ctx) zeroTimeoutDeadline(recordedMode bool) {
+	r := c.R
+	isMax := func(v ssa.Value) bool {
+		k, ok := core.Strip(v).(*ssa.Const)
+		return ok && k.Value != nil && k.Value.ExactString() == "18446744073709551615"
+	}
+	n := 0
+	for _, fn := range c.P.ModuleFuncs(false) {
+		if !strings.Contains(core.FnName(fn), "contracts.TransactionManager).") || len(fn.Blocks) == 0 {
+			continue
+		}
+		// the deadline sums of fn and the timeout parameter they add
+		var tparam *ssa.Parameter
+		isSum := func(v ssa.Value) bool {
+			for _, o := range append(core.Origins(v), v) {
+				bo, ok := o.(*ssa.BinOp)
+				if !ok || bo.Op != token.ADD {
+					continue
+				}
+				cur := func(x ssa.Value) bool {
+					return core.Mentions(x, func(w ssa.Value) bool {
+						cc, ok := w.(*ssa.Call)
+						return ok && strings.HasSuffix(core.CalleeName(cc), "GetCurrentHeight")
+					})
+				}
+				var other ssa.Value
+				switch {
+				case cur(bo.X):
+					other = bo.Y
+				case cur(bo.Y):
+					other = bo.X
+				default:
+					continue
+				}
+				if p, ok := core.Strip(other).(*ssa.Parameter); ok {
+					tparam = p
+					return true
+				}
+			}
+			return false
+		}
+		type hstore struct {
+			st  *ssa.Store
+			sum bool
+			max bool
+		}
+		var stores []hstore
+		for _, b := range fn.Blocks {
+			for _, in := range b.Instrs {
+				st, ok := in.(*ssa.Store)
+				if !ok {
+					continue
+				}
+				if _, f, _, ok := core.FieldOf(st.Addr); !ok || f != "Height" {
+					continue
+				}
+				stores = append(stores, hstore{st, isSum(st.Val), isMax(st.Val)})
+			}
+		}
+		hasSum := false
+		for _, s := range stores {
+			if s.sum {
+				hasSum = true
+			}
+		}
+		if !hasSum || tparam == nil {
+			continue
+		}
+		lists := false
+		for _, call := range core.Calls(fn) {
+			if strings.HasSuffix(core.CalleeName(call), "addToTimeoutList") {
+				lists = true
+			}
+		}
+		key := shortFn(fn) + ": recorded Height for timeout = 0"
+		if !lists && !recordedMode {
+			r.Note("R06.13", key, c.P.Pos(fn.Pos()), "the executor lists requests under height + ibtp.TimeoutHeight behind its own TimeoutHeight > 0 guard (R06.2); the recorded Height only names the list a receipt removes the id from")
+			continue
+		}
+		n++
+		isStore := func(in ssa.Instruction) *hstore {
+			for i := range stores {
+				if ssa.Instruction(stores[i].st) == in {
+					return &stores[i]
+				}
+			}
+			return nil
+		}
+		// edges on which the timeout parameter is 0
+		zero := condEdges(fn, func(f core.Fact, ifi *ssa.If) (bool, int) {
+			isT := func(v ssa.Value) bool { return v != nil && core.Strip(v) == ssa.Value(tparam) }
+			switch f.Kind {
+			case core.FEqConst:
+				if isT(f.Subject) && f.Const == "0" {
+					return true, holdsEdge(f)
+				}
+			case core.FCmp:
+				bo, ok := ifi.Cond.(*ssa.BinOp)
+				if !ok {
+					return false, 0
+				}
+				if z, ok := core.ConstInt(bo.Y); ok && isT(bo.X) {
+					switch {
+					case z == 0 && bo.Op == token.LEQ, z == 1 && bo.Op == token.LSS:
+						return true, 0
+					case z == 0 && bo.Op == token.GTR, z == 1 && bo.Op == token.GEQ:
+						return true, 1
+					}
+				}
+			}
+			return false, 0
+		})
+		if zero.Len() == 0 {
+			r.Bad("R06.13", key, c.P.Pos(fn.Pos()), "the deadline GetCurrentHeight() + "+tparam.Name()+" is recorded without any test of the timeout against 0: a request with T = 0 is recorded with the height of the block that accepted it, listed there, and rolled back in its own block")
+			continue
+		}
+		bad := ""
+		for b, idxs := range zero {
+			for si := range idxs {
+				if si >= len(b.Succs) {
+					continue
+				}
+				first := map[*hstore]bool{}
+				rs := core.Reach([]core.Point{{B: b.Succs[si], Idx: 0}}, func(in ssa.Instruction) bool {
+					if h := isStore(in); h != nil {
+						first[h] = true
+						return true
+					}
+					return false
+				}, nil)
+				for h := range first {
+					if !h.max {
+						bad = "on the edge on which " + tparam.Name() + " is 0 the Height written next (" + c.P.Pos(h.st.Pos()) + ") is not MaxUint64"
+					}
+				}
+				reachesExit := false
+				for _, ret := range core.Returns(fn) {
+					if rs.Has(ret) {
+						reachesExit = true
+					}
+				}
+				if !reachesExit {
+					continue
+				}
+				// the value in force when the test is made: the last stores before it
+				ifi := core.IfOf(b)
+				for i := range stores {
+					h := &stores[i]
+					pre := core.Reach([]core.Point{core.After(h.st)}, func(in ssa.Instruction) bool { return isStore(in) != nil }, nil)
+					if ifi != nil && pre.Has(ifi) && !h.max {
+						bad = "on the edge on which " + tparam.Name() + " is 0 the function can finish with the Height written at " + c.P.Pos(h.st.Pos()) + ", which is not MaxUint64"
+					}
+				}
+			}
+		}
+		r.Check(bad == "", "R06.13", key, c.P.Pos(fn.Pos()), "timeout tested against 0; on that edge the recorded Height is MaxUint64", bad+": a request with T = 0 gets a deadline and is rolled back although it must never time out")
+	}
+	r.Floor("R06.13", "transaction-manager functions recording a deadline they (or the executor) list ids under", n, 1)
 }
